@@ -102,7 +102,7 @@ def recompute_shape(ctx, r):
     A = ctx.anchors
     bodies = set()
     for w in ctx.world.field_writes:
-        if w.rv["k"] == "use" and w.body.path not in ctx.role_bodies() and "Stats" in w.field[1] and \
+        if w.rv["k"] in ("use", "cast") and w.body.path not in ctx.role_bodies() and "Stats" in w.field[1] and \
                 not c02.is_incremental_update(ctx, w):
             bodies.add(w.body.path)
     for p in sorted(bodies):
@@ -114,7 +114,7 @@ def recompute_shape(ctx, r):
         sl = Slicer(ctx.world, b)
         srcs = {}
         for w in ctx.world.field_writes:
-            if w.body.path == p and w.rv["k"] == "use":
+            if w.body.path == p and w.rv["k"] in ("use", "cast"):
                 srcs[w.field[2]] = sl.leaves_of_operand(w.rv["op"])
         uniq = [k for k in srcs if "unique" in k or "blobs" in k]
         byts = [k for k in srcs if "bytes" in k and "serialized" not in k]
